@@ -42,4 +42,28 @@ attachments `own` -/
 def history (dead : List (List Nat)) (own : List Nat) (fragmented : Bool) : List Ev :=
   dead.flatMap (fun a => [Ev.first a false, Ev.truncated]) ++ (if fragmented then [.first own false, .assembled] else [.first own true])
 
+/-! ## a receiver's whole life: one call after the other -/
+
+/-- `acc`: what the attachment vectors hold; `pend`: descriptors of the first packet of the message being assembled;
+`out`: the attachment lists returned so far, one per delivered message -/
+structure RS where
+  acc : List Nat
+  pend : Option (List Nat)
+  out : List (List Nat)
+deriving Repr, DecidableEq
+
+/-- after a delivery the vectors have been moved out to the caller, so the next call starts empty either way; what differs
+between the variants is what a discarded message leaves behind -/
+def feed (c : Cfg) (s : RS) : Ev → RS
+  | .first a true => { acc := [], pend := none, out := s.out ++ [s.acc ++ a] }
+  | .first a false => { s with pend := some a }
+  | .assembled => match s.pend with
+    | some a => { acc := [], pend := none, out := s.out ++ [s.acc ++ a] }
+    | none => s
+  | .truncated => match s.pend with
+    | some a => { s with acc := if c.discardRestarts && c.freshVectors then [] else s.acc ++ a, pend := none }
+    | none => s
+
+def feedAll (c : Cfg) (s : RS) (evs : List Ev) : RS := evs.foldl (feed c) s
+
 end RecvAtt
